@@ -107,7 +107,7 @@ def chain_case(r, name):
 
 
 def run():
-    chk = Check("C10", props_modules=["GFO.Props.C10", "GFO.Props.InitRuns", "GFO.Props.InitRuns2", "GFO.Props.PopInitRuns", "GFO.Gen.InitGenCheck"], gen_steps=(translators.gen_init,))
+    chk = Check("C10", props_modules=["GFO.Props.C10", "GFO.Props.InitRuns", "GFO.Props.InitRuns2", "GFO.Props.PopInitRuns", "GFO.Gen.InitGenCheck", "GFO.Gen.PopGenCheck"], gen_steps=(translators.gen_init, translators.gen_pop))
     chk.build_and_audit()
     r = C.rng("C10")
     quick = C.tier() != "thorough"
